@@ -17,7 +17,7 @@ type GenOpts struct {
 	LongComments bool
 }
 
-var labelPool = []string{"l0", "loop", "done", "next", "L4", "skip_5", "a", "zz_end"}
+var labelPool = []string{"l0", "loop", "done", "next", "L4", "skip_5", "a", "zz_end", ""} // the empty string is a label name like any other
 
 var dataLens = []int{0, 1, 2, 15, 16, 17, 31, 32, 33, 47, 48, 49, 64, 65, 80}
 
